@@ -306,9 +306,11 @@ def _lit(t):
     return s if v >= 0 else f"(- {s})"
 
 
-def to_smt(t, defs=None):
-    """Print a term; with `defs` (a list) shared sub-terms are let-bound via define-fun style names."""
-    memo = {}
+def to_smt(t, defs=None, memo=None):
+    """Print a term; with `defs` (a list) shared sub-terms are let-bound via define-fun style names.
+    Pass one `memo` dict for several terms of the same query so that shared sub-terms are defined once."""
+    if memo is None:
+        memo = {}
 
     def go(x):
         r = memo.get(x)
@@ -479,7 +481,8 @@ class Solver:
         for v in vs:
             self._send(f"(declare-const |{v.val}| {v.sort})")
         defs = []
-        bodies = [to_smt(a, defs) for a in assertions]
+        shared = {}
+        bodies = [to_smt(a, defs, shared) for a in assertions]
         # definitions must be emitted in order; each body may reference earlier definitions
         for name, sort, body in defs:
             self._send(f"(define-fun {name} () {sort} {body})")
